@@ -407,6 +407,8 @@ func cmdBits(args []string) int {
 		}(i)
 	}
 	wg.Wait()
+	// a case that did not return while many ran in parallel is repeated alone with a three times longer bound; only that counts
+	rerunHungCases(evs, "wPanic", func(i int) tr.Ev { return runBits(all[i]) })
 	w, err := tr.Open(*out)
 	if err != nil {
 		return 2
